@@ -36,7 +36,7 @@ from .errors import (
     MemoryLimitError,
     TimeLimitError,
 )
-from .regex import RegexTimeoutError
+from .regex import RegexTimeoutError, RegexStackOverflow
 
 
 def js_round(x: float, ndigits: int = 0) -> float:
@@ -1695,6 +1695,10 @@ class VM:
                 return re.test(string)
             except RegexTimeoutError:
                 raise TimeLimitError("Regex execution timeout")
+            except RegexStackOverflow:
+                raise JSRangeError(
+                    "Regular expression too complex: backtracking stack exhausted"
+                )
 
         def exec_fn(*args):
             string = to_string(args[0]) if args else ""
@@ -1702,6 +1706,10 @@ class VM:
                 return re.exec(string)
             except RegexTimeoutError:
                 raise TimeLimitError("Regex execution timeout")
+            except RegexStackOverflow:
+                raise JSRangeError(
+                    "Regular expression too complex: backtracking stack exhausted"
+                )
 
         methods = {
             "test": test_fn,
@@ -2018,6 +2026,10 @@ class VM:
                         parts.append(s[piece_start:])
                 except RegexTimeoutError:
                     raise TimeLimitError("Regex execution timeout")
+                except RegexStackOverflow:
+                    raise JSRangeError(
+                        "Regular expression too complex: backtracking stack exhausted"
+                    )
             elif to_string(sep) == "":
                 parts = list(s)
             else:
@@ -2192,6 +2204,10 @@ class VM:
                     return "".join(result_parts)
                 except RegexTimeoutError:
                     raise TimeLimitError("Regex execution timeout")
+                except RegexStackOverflow:
+                    raise JSRangeError(
+                        "Regular expression too complex: backtracking stack exhausted"
+                    )
             else:
                 # String replace - only replace first occurrence
                 search = to_string(pattern)
@@ -2327,6 +2343,10 @@ class VM:
                     return arr
             except RegexTimeoutError:
                 raise TimeLimitError("Regex execution timeout")
+            except RegexStackOverflow:
+                raise JSRangeError(
+                    "Regular expression too complex: backtracking stack exhausted"
+                )
 
         def search(*args):
             pattern = args[0] if args else None
@@ -2352,6 +2372,10 @@ class VM:
                 return result.index if result else -1
             except RegexTimeoutError:
                 raise TimeLimitError("Regex execution timeout")
+            except RegexStackOverflow:
+                raise JSRangeError(
+                    "Regular expression too complex: backtracking stack exhausted"
+                )
 
         def toString(*args):
             return s
